@@ -296,6 +296,8 @@ def _var_func(a, correction=None, **kwargs):
 
 def _var_combine(a, axis=None, correction=None, **kwargs):
     # _var_combine is called by _partial_reduce which concatenates along the first axis
+    if len(axis) == 0:  # 0-d array: nothing to combine
+        return a
     axis = axis[0]
     if a["n"].shape[axis] == 1:  # nothing to combine
         return a
